@@ -42,6 +42,9 @@ var commands = map[string]command{
 	"applier-trace":   applierTrace,
 	"composer-replay": composerReplay,
 	"composer-trace":  composerTrace,
+	"rules-replay":    rulesReplay,
+	"rules-trace":     rulesTrace,
+	"guard-replay":    guardReplay,
 }
 
 func main() {
